@@ -13,7 +13,7 @@ EXPLANATION = (
     "(R3) the full (un-reduced) tolerances are plumbed position by position; (R4) no write to the iterate or to the "
     "reported scalars between the deciding check_termination and post_process, unscale before copy-out; "
     "(R5/R6/R7) units abstract interpretation: reported residuals/costs and returned x,s,z are exactly "
-    "un-equilibrated and tau-normalised, residual definitions. NOT decided: that iterates are in K x K*, numerical "
+    "un-equilibrated and tau-normalised, residual definitions (signed linear forms: rx = -Px - A'z - tau q, rz = Ax + s - tau b, ...); (R8) caches and mirrors follow the data; (R9) the units premises hold: equilibrate establishes P~d d c, A~e d, q~d c, b~e and every update form / cached norm keeps them; (R10) stage dataflow of DefaultProblemData::new: no stale input after a reducing stage, construction order presolve -> decomposition, mirrored reversal. NOT decided: that iterates are in K x K*, numerical "
     "accuracy of the KKT solves, rounding.")
 ASSUMPTIONS = [
     'rustc MIR construction and trait resolution are correct',
